@@ -34,7 +34,16 @@ class EngineRace(EngineC):
         return {"VERIF_HAMMER": "1", "VERIF_CASE_MARK": "1", "GORACE": "halt_on_error=0 exitcode=0"}
 
     def finding_id(self, cr):
-        msgs = [m for _, m in cr.oracle]
-        if msgs and all(("data race" in m and "baseLoadBalancer).register" in m and "baseLoadBalancer).iterate" in m) for m in msgs):
-            return "race-countconnections-vs-register"
-        return EngineC.finding_id(self, cr)
+        """every oracle message of the case must be explained by a listed finding"""
+        ids = set()
+        for _, m in cr.oracle:
+            if "C19: an accepted Register call delivered no result" in m:
+                ids.add("register-races-with-shutdown")
+            elif "data race" in m and "(*listener).close" in m and "(*listener).dup" in m:
+                ids.add("race-dup-vs-listener-close")
+            elif "data race" in m and any(w in m for w in ("activateReactors", "runEventLoops", "OpenPoller", "NewLockFreeQueue", "baseLoadBalancer).register")) \
+                    and any(r in m for r in ("gnet.Engine.", "enroll.func1", "(*eventloop).Register", "(*eventloop).Enroll", "(*Poller).Trigger")):
+                ids.add("race-engine-handle-published-in-onboot")
+            else:
+                return None
+        return sorted(ids) or None
